@@ -68,6 +68,11 @@ def model(spec, order):
     B = {b['name']: b for b in spec['blocks']}
     st = {n: {'steps': 0, 'out': None} for n in B}
     log = []
+    for n, b in B.items():
+        if b.get('early'):
+            # the block's main task (created in start()) delivers a value at its first run,
+            # before the simulator's first initialisation pass
+            st[n]['out'] = ('maintask', n)
 
     def emit(name, phase):
         for dst in B[name].get('emit', {}).get(phase, ()):
@@ -261,6 +266,9 @@ def run_order(spec, order, ctx):
                 feats.add('ainit')
                 kw['init_timeout'] = b['ainit']['timeout']
                 script['init_async'] = tuple(b['ainit']['script'])
+            if b.get('early'):
+                feats.add('maintask')
+                script['maintask'] = ('set_first', 0)
             if b.get('initdef'):
                 feats.add('initdef')
                 kw['initdef'] = b['initdef']['value']
@@ -552,6 +560,8 @@ def random_spec(rng, quick):
                             'value': f"def-{nm}"}
         if can_raise and rng.random() < 0.04:
             b['regular'] = 'raise'
+        if rng.random() < 0.15:
+            b['early'] = True
         em = {}
         for phase, ds in emits[nm].items():
             have = {'restore': 'persist', 'init_async': 'ainit', 'init_from_value': 'initdef'}.get(phase)
@@ -567,6 +577,32 @@ def random_spec(rng, quick):
         if pg:
             b['emit_ping'] = pg
         blocks.append(b)
+    if len(names) >= 2 and rng.random() < 0.12:
+        # directed: the last block of the ranking has no working init source of its own and
+        # gets nothing but an early 'ping' (which makes its synchronous steps run early, but
+        # does not initialise it): the start must fail whatever the creation order
+        src, dst = rank[0], rank[-1]
+        for b in blocks:
+            for key in ('emit', 'emit_ping'):
+                for phase in list(b.get(key, {})):
+                    b[key][phase] = [d for d in b[key][phase] if d != dst]
+            if b['name'] == dst:
+                b.clear()
+                b.update({'name': dst, 'regular': 'ok'})
+                if rng.random() < 0.5:
+                    b['initdef'] = {'script': 'leave', 'value': f"def-{dst}"}
+            if b['name'] == src:
+                # the ping is sent from the first pass (restore of the sender's saved state) or
+                # from its asynchronous routine, i.e. before the second pass begins
+                if rng.random() < 0.5:
+                    b['persist'] = {'stored': True, 'expiration': None, 'script': 'ok',
+                                    'state': f"saved-{src}"}
+                    b.setdefault('emit_ping', {}).setdefault('restore', []).append(dst)
+                else:
+                    b.pop('persist', None)
+                    b.pop('early', None)
+                    b['ainit'] = {'script': ['ok', 0.75], 'timeout': 6.0}
+                    b.setdefault('emit_ping', {}).setdefault('init_async', []).append(dst)
     spec = {'blocks': blocks, 'stop_time': rng.random() < 0.8, 'lib': {}}
     if rng.random() < 0.3:
         spec['konst'] = True
